@@ -109,7 +109,15 @@ func base(p string) string { return filepath.Base(p) }
 // ---- opening ----
 
 func OpenFile(name string, flag int, perm FileMode) (*File, error) {
-	sched.Step(fmt.Sprintf("open(%s,%#x)", base(name), flag))
+	op := fmt.Sprintf("open(%s,%#x)", base(name), flag)
+	if flag&os.O_CREATE != 0 {
+		if sched.StepF(op) {
+			obs("open %s ENOSPC", base(name))
+			return nil, &fs.PathError{Op: "open", Path: name, Err: syscall.ENOSPC}
+		}
+	} else {
+		sched.Step(op)
+	}
 	f, err := os.OpenFile(name, flag, perm)
 	obs("open %s %s", base(name), errStr(err))
 	return track(f, err)
@@ -120,7 +128,10 @@ func Create(name string) (*File, error) { return OpenFile(name, O_RDWR|O_CREATE|
 // CreateTemp is deterministic per execution (a counter instead of a random number), otherwise state
 // hashing and prefix replay would diverge; O_EXCL as in package os.
 func CreateTemp(dir, pattern string) (*File, error) {
-	sched.Step("createtemp(" + pattern + ")")
+	if sched.StepF("createtemp(" + pattern + ")") {
+		obs("createtemp ENOSPC")
+		return nil, &fs.PathError{Op: "createtemp", Path: dir, Err: syscall.ENOSPC}
+	}
 	if dir == "" {
 		dir = os.TempDir()
 	}
@@ -173,12 +184,19 @@ func (f *File) Write(b []byte) (int, error) {
 		if err != nil {
 			return n, err
 		}
-		sched.Step(fmt.Sprintf("write[%d:%d](%s)", h, len(b), base(f.f.Name())))
+		if sched.StepF(fmt.Sprintf("write[%d:%d](%s)", h, len(b), base(f.f.Name()))) {
+			obs("write %d ENOSPC", n)
+			return n, &fs.PathError{Op: "write", Path: f.f.Name(), Err: syscall.ENOSPC} // the device filled up after the first half
+		}
 		m, err := f.f.Write(b[h:])
 		obs("write %d %s", n+m, errStr(err))
 		return n + m, err
 	}
-	sched.Step(fmt.Sprintf("write[%d](%s)", len(b), base(f.f.Name())))
+	if sched.StepF(fmt.Sprintf("write[%d](%s)", len(b), base(f.f.Name()))) {
+		n, _ := f.f.Write(b[:len(b)/2]) // a short write: half of the bytes reach the file, then the device is full
+		obs("write %d ENOSPC", n)
+		return n, &fs.PathError{Op: "write", Path: f.f.Name(), Err: syscall.ENOSPC}
+	}
 	n, err := f.f.Write(b)
 	obs("write %d %s", n, errStr(err))
 	return n, err
@@ -227,13 +245,20 @@ func (f *File) Close() error {
 		_ = f.f.Close()
 		return errDead
 	}
-	sched.Step("close(" + base(f.f.Name()) + ")")
+	if sched.StepF("close(" + base(f.f.Name()) + ")") {
+		_ = f.f.Close() // the descriptor is gone, the kernel reports a deferred write error
+		obs("close EIO")
+		return &fs.PathError{Op: "close", Path: f.f.Name(), Err: syscall.EIO}
+	}
 	err := f.f.Close()
 	obs("close %s", errStr(err))
 	return err
 }
 func (f *File) Sync() error {
-	sched.Step("fsync(" + base(f.f.Name()) + ")")
+	if sched.StepF("fsync(" + base(f.f.Name()) + ")") {
+		obs("fsync EIO")
+		return &fs.PathError{Op: "sync", Path: f.f.Name(), Err: syscall.EIO}
+	}
 	return f.f.Sync()
 }
 func (f *File) Chmod(m FileMode) error {
@@ -274,7 +299,10 @@ func Rename(oldpath, newpath string) error {
 	if sched.Dead() {
 		return errDead
 	}
-	sched.Step("rename(" + base(oldpath) + "->" + base(newpath) + ")")
+	if sched.StepF("rename(" + base(oldpath) + "->" + base(newpath) + ")") {
+		obs("rename EXDEV")
+		return &os.LinkError{Op: "rename", Old: oldpath, New: newpath, Err: syscall.EXDEV} // as if the two paths were on different devices
+	}
 	err := os.Rename(oldpath, newpath)
 	obs("rename %s", errStr(err))
 	return err
